@@ -254,6 +254,26 @@ class Check:
         r = s.check()
         o.backend = "z3-%s" % z3.get_version_string()
         if r == z3.unknown and o.expect == "unsat":
+            # the same query re-parsed from its SMT-LIB text in a fresh z3 context (term ordering no longer depends on the order in
+            # which this process happened to build its terms), then with another random seed: verdicts must not hinge on such accidents
+            for seed in (0, 7):
+                try:
+                    c2 = z3.Context()
+                    s2 = z3.Solver(ctx=c2)
+                    s2.set("timeout", max(2000, self.timeout_ms // 2))
+                    if seed:
+                        s2.set("smt.random_seed", seed)
+                    s2.from_string(o.smt2())
+                    r_ = s2.check()
+                    if r_ == z3.unsat:
+                        r = z3.unsat
+                        o.backend = "z3-%s (fresh context%s)" % (z3.get_version_string(), ", seed %d" % seed if seed else "")
+                        break
+                    if r_ == z3.sat:
+                        break        # a refutation needs its model in the main context: leave it to cvc5 / the native side
+                except Exception:
+                    break
+        if r == z3.unknown and o.expect == "unsat":
             r2 = self.cvc5(o)
             if r2 is not None:
                 r = r2
